@@ -123,3 +123,32 @@ Fixpoint session_msgs (d : dev) (ms : list (bool * msg)) : dev :=
     | None => d
     end
   end.
+
+(* ---- one place where the operation-level model cannot follow the bytes of a FAILED message ----
+   The dispatcher asks the formatter for a new response unit (which writes the unit separator `;` when something was
+   written before) BEFORE it invokes a query handler.  When the query form does not exist (commands without a query
+   form: their Command::query default fails with -113) the separator is already in the buffer, and SFail has no way
+   to say so.  The device state and the returned error are not affected, only the bytes left in the buffer of the
+   failed message.  [stray_separator m] says exactly when this happens. *)
+Definition event_only (id : N) : bool := (id =? 1) || (id =? 6) || (id =? 10) || (id =? 30) || (id =? 40).
+(* [written]: a previous unit of the message was a query *)
+Fixpoint stray_sep (ctx : tree cdev) (us : list (munit * list byte)) (written : bool) : bool :=
+  match us with
+  | [] => false
+  | (u, _) :: us' =>
+    let h := u_header u in
+    let from := if h_common h || h_absolute h then contrib_tree else ctx in
+    match desig from from (header_path h) with
+    | [] => false
+    | (c, ctx') :: _ =>
+      match cmd_ops (cid c) (h_query h) (unit_data u) with
+      | None => false
+      | Some ops =>
+        if existsb is_fail ops then written && h_query h && event_only (cid c)
+        else stray_sep (if h_common h then ctx else ctx') us' (written || h_query h)
+      end
+    end
+  end.
+Definition stray_separator (m : msg) : bool := stray_sep contrib_tree (m_units m) false.
+Definition with_stray (m : msg) (r : dev * list byte * option error) : dev * list byte * option error :=
+  let '(d', out, e) := r in (d', out ++ (if stray_separator m then [59] else []), e).
